@@ -2,7 +2,7 @@
 """fills /verif/seeded/<id>/meta.json from notes.md / confirm.txt / checks_run"""
 import json, os, re, sys
 root = '/verif/seeded'
-for sid in sorted(os.listdir(root)):
+for sid in sorted(x for x in os.listdir(root) if not x.startswith('_')):
     d = f'{root}/{sid}'
     mp = f'{d}/meta.json'
     meta = json.load(open(mp)) if os.path.exists(mp) else {'id': sid}
